@@ -13,13 +13,13 @@ R = {
     "C01-r7m2": ("missed", "C01 plane inplace: one operator object, every tensor of the operator scaled in place by the caller between two solves (second solve also under no_grad), 8 / 14 operator kinds x direct and Krylov methods"),
     "C02-r7m1": ("detected", "-"),
     "C02-r7m2": ("missed", "C02 graph history prior_plain: a plain backward pass (retain_graph) over the same graph before the recording pass that is judged at second order"),
-    "C03-r7m1": ("missed", "NOT YET COVERED: float32 / complex64 unknowns with an explicit f_tol below the float32 machine epsilon on a problem of scale 1e-3 (C03's float32 cases ask for tolerances >= 100 eps)"),
+    "C03-r7m1": ('missed', "C03 units plane: the unknown in units of 2^-14 in single precision (g'(y') = s g(y'/s)): requested absolute tolerances 1e-4 s / 1e-3 s lie below the machine epsilon of the dtype and are attainable all the same; all root-finding and fixed-point methods"),
     "C03-r7m2": ("detected", "-"),
     "C04-r7m1": ("detected", "-"),
-    "C04-r7m2": ("missed", "NOT YET COVERED by C04 (complex unknowns with bck_options method cg); the change sits in AdjointLinearOperator._rmv, C11 does not see it either because conj(mv(conj x)) differs from the truth only for complex operators reached through .H.rmv - to be added to C11's adjoint consistency"),
+    "C04-r7m2": ('missed by C04, detected by C11 (adjoint consistency of composed operators in complex128)', '- (the change sits in AdjointLinearOperator._rmv, anchored in C11; C04 does not enumerate complex unknowns with bck_options method cg: NOT covered by C04 itself)'),
     "C05-r7m1": ("missed", "C05 davidson option max_addition in {1, neig, neig + 2}, also on the new spectrum class edge (outermost pair far outside, interior compressed: the outermost pair converges long before the others)"),
     "C05-r7m2": ("missed", "C05 svd of the same operator in other units (whole operator times 1e-8 / 1e7), singular values judged relative to the factor"),
-    "C06-r7m1": ("missed", "NOT YET COVERED: implicit backward with an iterative backward solver and eigenvalues carrying two non-trivial batch dimensions (matrix-free operator, n > 5, batch (2, 3))"),
+    "C06-r7m1": ('missed by C06, detected by C01 (batch plane: shifts with two non-trivial batch dimensions through the Krylov methods)', "- (the change sits in _setup_linear_problem of the linear solvers, anchored in C01; C06's implicit backward with an iterative solver and doubly batched eigenvalues is NOT enumerated by C06 itself)"),
     "C06-r7m2": ("detected", "-"),
     "C07-r7m1": ("missed", "C07 plane cplx: complex state (non-normal complex linear system), adaptive methods against the matrix exponential, fixed-step methods against the textbook tableau in complex arithmetic"),
     "C07-r7m2": ("missed", "C07 plane tol0: rtol or atol given as exactly 0 / 0.0 in the forward options (purely absolute request on |y| ~ 1, purely relative request on |y| ~ 1e-12)"),
@@ -27,7 +27,7 @@ R = {
     "C08-r7m2": ("missed", "NOT YET COVERED: right-hand side whose autograd graph differs between evaluations (Python branch on t), smaller graph at the end of the time span"),
     "C09-r7m1": ("detected", "-"), "C09-r7m2": ("detected", "-"),
     "C10-r7m1": ("missed", "NOT YET COVERED: two PureFunction wrappers active at the same time (backward pass of one functional running inside a substitution of another wrapper) after a re-assignment"),
-    "C10-r7m2": ("missed", "NOT YET COVERED: make_sibling of several parents where a parent that is not the last one declares two names for one tensor (C10's multi_* kinds have no alias in the first parent)"),
+    "C10-r7m2": ('missed', 'C09 / C10 kind multi_em2_em: sibling of two objects whose FIRST parent declares two names for one tensor (crash search, protocol search and re-assignment search)'),
     "C11-r7m1": ("detected", "-"),
     "C11-r7m2": ("missed", "C11: the left scalar factor is 0.3 (not representable in single precision) instead of the dyadic 0.5"),
     "C12-r7m1": ("detected", "-"), "C12-r7m2": ("detected", "-"),
@@ -36,16 +36,16 @@ R = {
     "C14-r7m1": ("detected", "-"),
     "C14-r7m2": ("missed", "C14 gradient query sets gK / gKs: queries bitwise equal to interior sample positions of a cubic spline (more and fewer queries than samples), derivative w.r.t. the queries"),
     "C15-r7m1": ("detected", "-"), "C15-r7m2": ("detected", "-"),
-    "C16-r7m1": ("missed", "NOT YET COVERED: mh with a multi-element x0 (C16's mh cases use one-element states; the joint distribution of the components is not judged)"),
+    "C16-r7m1": ('missed', "C16 block D'': mh on states of several components (shapes (3,), (2, 2), (1, 4)); deterministic necessary condition: the increments of the collected states span the state space once d + 2 distinct states exist"),
     "C16-r7m2": ("detected", "-"),
     "C17-r7m1": ("detected", "-"),
-    "C17-r7m2": ("missed", "NOT YET COVERED: a torch.nn.Module object with a forward (pre-)hook given as the callable (jac(net, ...) must differentiate net(x), hooks included)"),
+    "C17-r7m2": ('missed', 'C17 kind nn_hook: the torch.nn.Module object itself is the callable and a forward hook post-processes its output (jac / hess must differentiate net(x), hooks included)'),
     "C18-r7m1": ("missed by C18, detected by C08", "- (the change sits in solve_ivp's backward, which every method of C18's pairwise comparison shares)"),
-    "C18-r7m2": ("missed", "NOT YET COVERED: one Interp1D object with unsorted x called first with a batched y and then with a y of fewer batch dimensions"),
-    "C19-r7m1": ("missed", "NOT YET COVERED: create_graph backward with a non-differentiable entry (Python float / tensor without grad) among the parameters"),
+    "C18-r7m2": ('missed by C18, detected by C14 (in-place history plane: one object, sample buffers of different batch shape)', '- (the change sits in Interp1D.__call__, anchored in C14)'),
+    "C19-r7m1": ('missed', 'C19 variant nondiff: one parameter (or the initial state) is a tensor that does not require grad; quad, rootfinder, equilibrium, minimize, solve_ivp, mcquad'),
     "C19-r7m2": ("missed by C19 (bounded retention: one extra tensor after a failed call, no growth)", "- (same change as C13-r7m2; C10's crash-point enumeration is the check for it)"),
     "C20-r7m1": ("missed", "NOT YET COVERED: a CONTAINER (list / dict / object) referenced from two parents (C20's alias classes are tensors shared between slots, containers are trees)"),
-    "C20-r7m2": ("missed", "NOT YET COVERED: the shape of a packed tensor changed in place between two get_* calls on one Packer"),
+    "C20-r7m2": ('missed', 'C20 scripted reshape histories: one Packer used before and after the shape of a packed tensor is changed in place (t_(), unsqueeze_(), .data assignment): the second listing, construction with the new shapes, rejection of the old shapes; 4 structures x unique x interface x alias'),
 }
 
 
